@@ -102,7 +102,7 @@ func (w *World) smtText(hyps []*Term, goal *Term, inputs []InputVar, reveal map[
 			return
 		}
 		done[name] = true
-		if sdl := w.SpecFuncs[name]; sdl != nil && sdl.Opaque && !reveal[name] {
+		if sdl := w.SpecFuncs[name]; sdl != nil && (sdl.Uninterp || (sdl.Opaque && !reveal[name])) {
 			// opaque: declared, not defined
 			pn, pt := sdl.paramNamesTypes()
 			_ = pn
@@ -302,6 +302,53 @@ func (d *Discharger) discharge(o *Obligation) {
 	if r.status != "unsat" && o.Split != nil && r.status != "sat" {
 		d.dischargeSplit(o)
 		return
+	}
+	if cj := splitGoal(o.Goal); r.status == "unknown" && len(cj) > 1 {
+		// prove the conjuncts one by one
+		total := r.seconds
+		solver := map[string]bool{}
+		type cres struct {
+			i int
+			r solveResult
+		}
+		results := make([]cres, len(cj))
+		var wg sync.WaitGroup
+		sem := make(chan struct{}, 6)
+		for i, g := range cj {
+			i, g := i, g
+			wg.Add(1)
+			go func() {
+				defer wg.Done()
+				sem <- struct{}{}
+				defer func() { <-sem }()
+				results[i] = cres{i, d.run(fmt.Sprintf("%s.conj%d", o.Name, i), o.Hyps, g, o.Inputs, d.timeout, o.Reveal)}
+			}()
+		}
+		wg.Wait()
+		allOK := true
+		for _, cr := range results {
+			total += cr.r.seconds
+			if cr.r.status != "unsat" {
+				allOK = false
+				r = cr.r
+				o.Clause += fmt.Sprintf(" [conjunct %d]", cr.i+1)
+				break
+			}
+			solver[cr.r.solver] = true
+		}
+		if allOK {
+			var ss []string
+			for k := range solver {
+				ss = append(ss, k)
+			}
+			sort.Strings(ss)
+			o.Status = "discharged"
+			o.Solver = strings.Join(ss, "+")
+			o.Seconds = total
+			o.Sub = len(cj)
+			return
+		}
+		r.seconds = total
 	}
 	if r.status == "sat" {
 		r = d.dyadicModel(o, r)
@@ -512,4 +559,32 @@ func (d *Discharger) dischargeSplit(o *Obligation) {
 	o.Solver = strings.Join(ss, "+")
 	o.Seconds = total
 	o.Sub = len(combos) + len(splits)
+}
+
+// splitGoal: conjuncts of a goal, distributing implications over conjunctions.
+func splitGoal(g *Term) []*Term {
+	if g == nil {
+		return nil
+	}
+	termMu.Lock()
+	defer termMu.Unlock()
+	var rec func(g *Term) []*Term
+	rec = func(g *Term) []*Term {
+		switch g.Op {
+		case "and":
+			var out []*Term
+			for _, a := range g.Args {
+				out = append(out, rec(a)...)
+			}
+			return out
+		case "=>":
+			var out []*Term
+			for _, c := range rec(g.Args[1]) {
+				out = append(out, mkImplies(g.Args[0], c))
+			}
+			return out
+		}
+		return []*Term{g}
+	}
+	return rec(g)
 }
